@@ -74,6 +74,10 @@ func (d *DateTime) UnmarshalJSON(bytes []byte) error {
 }
 
 func (d DateTime) MarshalUT0311L0x() ([]byte, error) {
+	if time.Time(d).IsZero() {
+		return []byte{0x00, 0x00, 0x00, 0x00, 0x00, 0x00, 0x00}, nil
+	}
+
 	encoded, err := bcd.Encode(time.Time(d).Format("20060102150405"))
 
 	if err != nil {
